@@ -128,7 +128,10 @@ class ImportsPlugin:
             ex.inputs[p] = a
             return sv_str(a)
         if model == "strset":
-            return SV("strset", [])
+            # a set of import lines, mutated in place by the builders: contents live in the heap so that a callee
+            # (also an inlined one) and its caller see the same object
+            st.heap[(p, "$lines")] = SV("tuple", [])
+            return SV("strset", p)
         return None
 
     def spec_has(self, name):
@@ -136,11 +139,12 @@ class ImportsPlugin:
 
     def spec_call(self, ex, name, pos, st):
         if name == "ADDED_COUNT":
-            return sv_int(len(pos[0].t))
+            return sv_int(len(st.heap[(pos[0].t, "$lines")].t))
         if name == "ADDED_LINE":
-            if len(pos[0].t) != 1:
-                raise Unsupported("ADDED_LINE: not exactly one import added")
-            return sv_str(pos[0].t[0])
+            lines = st.heap[(pos[0].t, "$lines")].t
+            if len(lines) != 1:
+                return sv_str("")        # no single added line: every predicate about "the" added line is false
+            return sv_str(lines[0])
         if name in ("LINE_RESOLVES_TO_MODULE", "LINE_RESOLVES_TO_CLASS"):
             # LINE_RESOLVES_TO_MODULE(line, current_package, target_package)
             # LINE_RESOLVES_TO_CLASS(line, current_package, target_package, type_name): imports the class itself
@@ -194,13 +198,9 @@ class ImportsPlugin:
     def call_method(self, ex, recv, name, pos, kw, st, node):
         if recv.kind == "strset" and name == "add":
             s = ex.coerce(pos[0], "str", st, "import line")
-            new = SV("strset", recv.t + [s.t])
-            for k_, v_ in list(st.env.items()):
-                if v_ is recv:
-                    st2 = st.clone()
-                    st2.env[k_] = new
-                    return [(st2, NONE)]
-            raise Unsupported("imports.add on an untracked set")
+            st2 = st.clone()
+            st2.heap[(recv.t, "$lines")] = SV("tuple", list(st.heap[(recv.t, "$lines")].t) + [s.t])
+            return [(st2, NONE)]
         if recv.kind == "str" and name == "join":
             sep = recv.t
             items = pos[0]
@@ -253,4 +253,226 @@ class ImportsPlugin:
 IMPORTS_ASSUMPTIONS = {
     "A-IMPORT": "inside the module p/__init__.py, `from .<k-1 more dots><x.y> import n as a` binds a to attribute/submodule n of package p[:len(p)-(k-1)] + x.y; "
                 "`import a.b.c as z` binds z to module a.b.c",
+}
+
+
+# =====================================================================================================
+# get_type_reference (the dispatch in front of the reference_* builders)
+# =====================================================================================================
+import ast as _ast
+import re as _re
+
+TC_OPT = z3.Function("TC_OPTIONAL", z3.StringSort(), z3.StringSort())
+PYCLS = z3.Function("PYCLS", z3.StringSort(), z3.StringSort())
+WRAPPED_PY = {"DoubleValue": "float", "FloatValue": "float", "Int32Value": "int", "Int64Value": "int", "UInt32Value": "int",
+              "UInt64Value": "int", "BoolValue": "bool", "StringValue": "str", "BytesValue": "bytes"}
+TYPE_ATOM_UP = z3.Concat(z3.Range("A", "Z"), z3.Star(z3.Union(z3.Range("A", "Z"), z3.Range("a", "z"), z3.Range("0", "9"), z3.Re("_"))))
+
+
+def _join(terms, sep="."):
+    parts = []
+    for i, t in enumerate(terms):
+        if i:
+            parts.append(z3.StringVal(sep))
+        parts.append(t)
+    if not parts:
+        return z3.StringVal("")
+    return parts[0] if len(parts) == 1 else z3.Concat(*parts)
+
+
+class TypeRefPlugin:
+    """Model for get_type_reference: `package` is the dot-join of the current package atoms, `source_type` either a
+    literal well-known type name or '.' + target package atoms + '.' + a capitalised type atom (C-PARSE-SOURCE: the
+    package / type split of parse_source_type_name is by capitalisation, which is what these shapes satisfy; lower-case
+    type names and capitalised package components are recorded known findings)."""
+    Q = "betterproto.compile.importing.get_type_reference"
+    SPEC_NAMES = {"TCOPT", "PYCLS_OF", "SRC_TYPE_ATOM", "SRC_PKG", "CUR_PKG", "FAMILY"}
+
+    @classmethod
+    def active(cls, ex):
+        return getattr(ex, "qualname", "") == cls.Q
+
+    def make_model_param(self, ex, st, p, model):
+        v = getattr(ex, "variant", None) or {}
+        if model == "dotted":
+            atoms = []
+            for n in v.get("current_package", []):
+                a = z3.String(n)
+                st.assume(z3.InRe(a, PKG_ATOM))
+                ex.inputs[n] = a
+                atoms.append(a)
+            return SV("str", _join(atoms), ("dotted", atoms))
+        if model == "srctype":
+            if "literal" in v:
+                return SV("str", z3.StringVal(v["literal"]), ("srclit", v["literal"]))
+            atoms = []
+            for n in v.get("py_package", []):
+                a = z3.String(n)
+                st.assume(z3.InRe(a, PKG_ATOM))
+                ex.inputs[n] = a
+                atoms.append(a)
+            for a, b in v.get("distinct", []):
+                st.assume(z3.String(a) != z3.String(b))
+            t = z3.String("TypeName")
+            st.assume(z3.InRe(t, TYPE_ATOM_UP))
+            ex.inputs["TypeName"] = t
+            term = z3.Concat(z3.StringVal("."), _join(atoms + [t])) if atoms else z3.Concat(z3.StringVal("."), t)
+            return SV("str", term, ("srctype", atoms, t))
+        if model == "tcopaque":
+            return SV("tcobj2", p)
+        return None
+
+    def spec_has(self, name):
+        return name in self.SPEC_NAMES
+
+    def spec_call(self, ex, name, pos, st):
+        if name == "TCOPT":
+            return sv_str(TC_OPT(pos[0].t))
+        if name == "PYCLS_OF":
+            return sv_str(PYCLS(pos[0].t))
+        if name == "FAMILY":
+            return sv_str((getattr(ex, "variant", None) or {}).get("family", ""))
+        src = ex.entry.env.get("source_type") if getattr(ex, "entry", None) is not None else None
+        if src.extra[0] == "srclit":
+            m = _re.match(r"^\.?([^A-Z]+)\.(.+)", src.extra[1])
+            pkg, nm = (m.group(1), m.group(2)) if m else ("", src.extra[1].lstrip("."))
+            if name == "SRC_TYPE_ATOM":
+                return sv_str(nm)
+            if name == "SRC_PKG":
+                return sv_tuple([sv_str(x) for x in pkg.split(".")] if pkg else [])
+        if name == "SRC_TYPE_ATOM":
+            return sv_str(src.extra[2])
+        if name == "SRC_PKG":
+            return sv_tuple([sv_str(a) for a in src.extra[1]])
+        if name == "CUR_PKG":
+            pk = ex.entry.env.get("package")
+            return sv_tuple([sv_str(a) for a in pk.extra[1]])
+        raise Unsupported(name)
+
+    def truth_hook(self, ex, v):
+        if not self.active(ex):
+            return None
+        if v.kind == "str" and isinstance(v.extra, tuple) and v.extra and v.extra[0] == "dotted":
+            return z3.BoolVal(len(v.extra[1]) > 0)
+        if v.kind == "tuple":
+            return z3.BoolVal(len(v.t) > 0)
+        return None
+
+    def attr_hook(self, ex, st, v, attr):
+        if not self.active(ex):
+            return None
+        if v.kind in ("tcobj2", "wrapperinst", "pytypeobj"):
+            if v.kind == "wrapperinst" and attr == "value":
+                return [(st, SV("wrapdefault", v.t))]
+            if v.kind == "pytypeobj" and attr == "__name__":
+                ex.assumption("C-WRAPPER-DEFAULTS")
+                return [(st, sv_str(WRAPPED_PY[v.t]))]
+            return [(st, SV("func", ("method", v, attr)))]
+        return None
+
+    def value_attr_hook(self, ex, st, v, attr):
+        return None
+
+    def call_method(self, ex, recv, name, pos, kw, st, node):
+        if not self.active(ex):
+            return None
+        if recv.kind == "str" and name == "split" and len(pos) == 1 and concrete_str(pos[0].t) == ".":
+            if isinstance(recv.extra, tuple) and recv.extra and recv.extra[0] == "dotted":
+                return [(st, sv_tuple([sv_str(a) for a in recv.extra[1]]))]
+            c = concrete_str(recv.t)
+            if c is not None:
+                return [(st, sv_tuple([sv_str(x) for x in c.split(".")]))]
+            raise Unsupported("split of an unstructured string")
+        if recv.kind == "tuple" and name in ("append", "extend") and len(pos) == 1:
+            add = [pos[0]] if name == "append" else (list(pos[0].t) if pos[0].kind == "tuple" else None)
+            if add is None:
+                raise Unsupported("extend with a non-list")
+            for k_, v_ in list(st.env.items()):
+                if v_ is recv:
+                    st2 = st.clone()
+                    st2.env[k_] = sv_tuple(list(recv.t) + add)
+                    return [(st2, NONE)]
+            raise Unsupported("append on an untracked list")
+        if recv.kind == "tcobj2" and name == "optional" and len(pos) == 1:
+            return [(st, sv_str(TC_OPT(ex.coerce(pos[0], "str", st, "type").t)))]
+        return None
+
+    def call_builtin(self, ex, name, pos, kw, st, node):
+        if not self.active(ex):
+            return None
+        last = name.split(".")[-1]
+        if "protobuf" in name and last in WRAPPED_PY and not pos:
+            return [(st, SV("wrapperinst", last))]
+        if name == "type" and len(pos) == 1 and pos[0].kind == "wrapdefault":
+            return [(st, SV("pytypeobj", pos[0].t))]
+        return None
+
+    def call_other(self, ex, tag, pos, kw, st, node):
+        if not self.active(ex):
+            return None
+        if tag[0] == "builtin" and "protobuf" in tag[1] and tag[1].split(".")[-1] in WRAPPED_PY and not pos:
+            return [(st, SV("wrapperinst", tag[1].split(".")[-1]))]
+        return None
+
+    def call_repo(self, ex, qualname, pos, kw, st, node):
+        if not self.active(ex):
+            return None
+        if qualname.endswith(".parse_source_type_name"):
+            ex.assumption("C-PARSE-SOURCE")
+            v = pos[0]
+            if isinstance(v.extra, tuple) and v.extra and v.extra[0] == "srctype":
+                return [(st, sv_tuple([SV("str", _join(v.extra[1]), ("dotted", v.extra[1])), sv_str(v.extra[2])]))]
+            c = concrete_str(v.t)
+            if c is not None:
+                m = _re.match(r"^\.?([^A-Z]+)\.(.+)", c)
+                pkg, nm = (m.group(1), m.group(2)) if m else ("", c.lstrip("."))
+                atoms = [z3.StringVal(x) for x in pkg.split(".")] if pkg else []
+                return [(st, sv_tuple([SV("str", z3.StringVal(pkg), ("dotted", atoms)), sv_str(nm)]))]
+            raise Unsupported("parse_source_type_name of an unstructured string")
+        if qualname.endswith(".pythonize_class_name"):
+            ex.assumption("C-PYCLASS")
+            c = concrete_str(pos[0].t)
+            t = PYCLS(pos[0].t)
+            st2 = st.clone()
+            st2.assume(z3.InRe(t, TYPE_ATOM))
+            return [(st2, sv_str(t))]
+        return None
+
+    def index_hook(self, ex, seq, idx, st):
+        if not self.active(ex):
+            return None
+        if seq.kind == "cdict" and idx.kind == "str":
+            c = concrete_str(idx.t)
+            if c is None:
+                raise Unsupported("table lookup with a symbolic key")
+            for kk, vv in seq.t:
+                if kk.kind == "str" and concrete_str(kk.t) == c:
+                    return [(st, vv)]
+            return [(st, Raised(SV("exc", "KeyError")))]
+        return None
+
+    def compare_hook(self, ex, op, a, b, st):
+        if not self.active(ex):
+            return None
+        if isinstance(op, (_ast.Eq, _ast.NotEq)) and a.kind == "tuple" and b.kind == "tuple":
+            if len(a.t) != len(b.t):
+                r = z3.BoolVal(False)
+            else:
+                conj = [x.t == y.t for x, y in zip(a.t, b.t)]
+                r = z3.simplify(z3.And(*conj)) if conj else z3.BoolVal(True)
+            return r if isinstance(op, _ast.Eq) else z3.Not(r)
+        return None
+
+    def binop_hook(self, ex, op, a, b, st):
+        if not self.active(ex):
+            return None
+        if isinstance(op, _ast.Add) and a.kind == "tuple" and b.kind == "tuple":
+            return sv_tuple(list(a.t) + list(b.t))
+        return None
+
+
+TYPEREF_ASSUMPTIONS = {
+    "C-PARSE-SOURCE": "parse_source_type_name('.' + lower-case package + '.' + Capitalised type) returns (package, type): the split is by capitalisation (its regex is not modelled); type names starting in lower case and capitalised package components are recorded known findings",
+    "C-PYCLASS": "pythonize_class_name(n) is some identifier PYCLS(n) (its contract in the names area states which)",
+    "C-WRAPPER-DEFAULTS": "type(<X>Value().value).__name__ is the Python scalar of the wrapper (float/int/bool/str/bytes), from wrappers.proto",
 }
